@@ -43,7 +43,7 @@ def sized_target(ai, dty):
 
 LC_OUTLEN = {"SHA384": 48, "SHA512": 64, "SHA256": 32, "HMAC_SHA384": 48, "HMAC_SHA512": 64, "HMAC_SHA256": 32}
 
-EARLY = {"aws_lc_rs::digest::Context::new", "aws_lc_rs::digest::Context::finish", "aws_lc_rs::hmac::Key::new", "aws_lc_rs::hmac::Context::with_key",
+EARLY = {"aws_lc_rs::digest::Context::new", "aws_lc_rs::digest::Context::finish", "aws_lc_rs::digest::digest", "aws_lc_rs::hmac::Key::new", "aws_lc_rs::hmac::Context::with_key",
          "aws_lc_rs::hmac::Context::sign", "ed25519_dalek::verifying::VerifyingKey::as_bytes", "curve25519_dalek::edwards::CompressedEdwardsY::decompress",
          "libsodium_rs::crypto_generichash::State::finalize", "libsodium_rs::crypto_stream::xchacha20::stream_xor", "libsodium_rs::random::bytes",
          "aws_lc_sys::x86_64_unknown_linux_gnu_crypto::EC_group_p384", "core::ptr::const_ptr::<impl *const T>::is_null", "core::ptr::mut_ptr::<impl *mut T>::is_null",
@@ -68,7 +68,8 @@ def early(ai, st, bi, ce, args, atys, dty, key, L):
     p = ce["path"]
     full = short(ce.get("full", ""))
     a0 = ai.load(st, args[0]) if args else None
-    if p in ("aws_lc_rs::digest::Context::new", "aws_lc_rs::hmac::Key::new"):
+    if p in ("aws_lc_rs::digest::Context::new", "aws_lc_rs::hmac::Key::new", "aws_lc_rs::digest::digest"):
+        # (digest::digest is the one-shot form: Context::new(alg) + update + finish)
         n = LC_OUTLEN.get(lib_static(a0) or "")
         return ("lib", "outlen", n) if n else NotImplemented
     if p in ("aws_lc_rs::digest::Context::finish", "aws_lc_rs::hmac::Context::with_key", "aws_lc_rs::hmac::Context::sign"):
